@@ -122,10 +122,27 @@ func c09body(first []string, maxLen int, withResume bool, variant string) func()
 			o.resumeAns = "failed" // the resumption is refused: the connection carries a NEW session
 		case "no-id":
 			o.enableAns = "enabled-no-resume" // stream management without resumption: <enabled/> has no id
+		case "unmanaged-first":
+			// the first connection is not stream-managed (the server does not offer it): what is received there
+			// belongs to no stream-managed session, the one enabled on the second connection starts at zero
+			o.serverCfg = func(k int, c *negCfg) { c.sm = k > 0 }
 		}
 		s := newSess(o)
 		if s.cl == nil {
 			return
+		}
+		resumedFromHandler := false
+		var resumeErr error
+		if variant == "handler-resume" {
+			// the reconnection is made from inside the Disconnected event handler, as StreamManager does
+			s.cl.SetHandler(func(e Event) error {
+				s.events = append(s.events, e)
+				if e.State.state == StateDisconnected && !resumedFromHandler {
+					resumedFromHandler = true
+					resumeErr = s.cl.Resume()
+				}
+				return nil
+			})
 		}
 		if err := s.cl.Connect(); err != nil {
 			vrt.Fail("C09|harness|connect", "%v", err)
@@ -139,12 +156,25 @@ func c09body(first []string, maxLen int, withResume bool, variant string) func()
 		}
 		sc.close()
 		vrt.WaitIdle()
-		if err := s.cl.Connect(); err != nil {
+		if variant == "handler-resume" {
+			if !resumedFromHandler || resumeErr != nil {
+				vrt.Fail("C09|harness|reconnect", "%s: Resume from the Disconnected handler: called=%v err=%v", hist, resumedFromHandler, resumeErr)
+				return
+			}
+		} else if err := s.cl.Connect(); err != nil {
 			vrt.Log("reconnect failed: %v", err)
 			vrt.Fail("C09|harness|reconnect", "%s: second Connect failed: %v", hist, err)
 			return
 		}
 		vrt.WaitIdle()
+		if variant == "unmanaged-first" {
+			if len(s.recs) < 2 || !s.recs[1].EnableOK || len(s.recs[1].ResumeSeen) != 0 {
+				vrt.Fail("C09|harness|fresh-session", "%s: the second connection did not enable stream management afresh", hist)
+				return
+			}
+			c09play(s.cl, s.conn(1), append(append([]string{}, seq2...), "r"), 0, hist+" (first stream-managed session, after an unmanaged connection)")
+			return
+		}
 		if variant == "refused" {
 			// a fresh stream-managed session: its count starts at zero
 			if len(s.recs) < 2 || !s.recs[1].EnableOK {
@@ -259,6 +289,10 @@ func TestVerifC09(t *testing.T) {
 	}
 	for _, a := range c09alphabet {
 		scs = append(scs, hx.Scenario{Name: "refused-resumption/first=" + a, Opt: vrt.Options{Bound: 0}, Body: c09body([]string{a}, maxLen-1, true, "refused"), Verdict: c09verdict})
+		scs = append(scs, hx.Scenario{Name: "resume-from-handler/first=" + a, Opt: vrt.Options{Bound: 0}, Body: c09body([]string{a}, maxLen-1, true, "handler-resume"), Verdict: c09verdict})
+		if c09isStanza(a) && a != "iq-resp" {
+			scs = append(scs, hx.Scenario{Name: "unmanaged-first/first=" + a, Opt: vrt.Options{Bound: 0}, Body: c09body([]string{a}, maxLen-1, true, "unmanaged-first"), Verdict: c09verdict})
+		}
 		scs = append(scs, hx.Scenario{Name: "sm-without-id/first=" + a, Opt: vrt.Options{Bound: 0}, Body: c09body([]string{a}, maxLen-1, false, "no-id"), Verdict: c09verdict})
 	}
 	for _, a := range c09alphabet {
